@@ -168,3 +168,14 @@ func safeSource(n *ref.Node, o ref.PrintOpts) (src string, ok bool) {
 }
 
 func toRealPlain(v ref.Value) value.Value { return bridge.ToReal(v, bridge.Variant{}) }
+
+// evalRealNoForce evaluates without forcing a lazy result.
+func evalRealNoForce(f funcGen.Func[value.Value], args []value.Value) (o bridge.Outcome) {
+	defer func() {
+		if r := recover(); r != nil {
+			o = bridge.Outcome{Err: fmt.Errorf("panic: %v", r), Panic: r}
+		}
+	}()
+	v, err := f.Eval(args...)
+	return bridge.Outcome{Val: v, Err: err}
+}
